@@ -183,3 +183,172 @@ def sym_int_ext(x=0, *a):
     if type(x) is _Digits:
         return x.n
     return sym_int(x, *a)
+
+
+# ---------------------------------------------------------------- set / dict by equality (no hashing)
+class _BuiltinLike(type):
+    """isinstance(x, <stub>) answers like the builtin it stands for."""
+    def __instancecheck__(cls, x):
+        return type(x) is cls or isinstance(x, cls._builtin)
+
+
+class SymSet(metaclass=_BuiltinLike):
+    """Stand-in for `set` / `frozenset` inside a module under test: membership by == (which forks on symbolic
+    operands) instead of by hash, insertion order kept.  Only what checks of this code base use is provided; anything
+    else is an AttributeError -> the run is inconclusive, never wrong."""
+    _builtin = (set, frozenset)
+
+    def __init__(self, it=()):
+        self._xs = []
+        for x in it:
+            self.add(x)
+
+    def add(self, x):
+        if not self.__contains__(x):
+            self._xs.append(x)
+
+    def __contains__(self, x):
+        for y in self._xs:
+            if x is y or x == y:
+                return True
+        return False
+
+    def __iter__(self):
+        return iter(list(self._xs))
+
+    def __len__(self):
+        return len(self._xs)
+
+    def __bool__(self):
+        return bool(self._xs)
+
+    def discard(self, x):
+        self._xs = [y for y in self._xs if not (x is y or x == y)]
+
+    def remove(self, x):
+        if x not in self:
+            raise KeyError(x)
+        self.discard(x)
+
+    def update(self, *its):
+        for it in its:
+            for x in it:
+                self.add(x)
+
+    def copy(self):
+        return SymSet(self._xs)
+
+    def union(self, *its):
+        r = SymSet(self._xs)
+        r.update(*its)
+        return r
+
+    __or__ = lambda self, o: self.union(o)
+
+    def intersection(self, o):
+        o = o if isinstance(o, SymSet) else SymSet(o)
+        return SymSet(x for x in self._xs if x in o)
+
+    __and__ = intersection
+
+    def difference(self, o):
+        o = o if isinstance(o, SymSet) else SymSet(o)
+        return SymSet(x for x in self._xs if x not in o)
+
+    __sub__ = difference
+
+    def issubset(self, o):
+        o = o if isinstance(o, SymSet) else SymSet(o)
+        return all(x in o for x in self._xs)
+
+    def __eq__(self, o):
+        o = o if isinstance(o, SymSet) else SymSet(o)
+        return len(self) == len(o) and self.issubset(o)
+
+    __hash__ = None
+
+
+class SymDict(metaclass=_BuiltinLike):
+    """Stand-in for `dict` inside a module under test: keys compared by ==, insertion order kept."""
+    _builtin = (dict,)
+
+    def __init__(self, *a, **k):
+        self._ks, self._vs = [], []
+        if a:
+            src = a[0]
+            for key, v in (src.items() if hasattr(src, "items") else src):
+                self[key] = v
+        for key, v in k.items():
+            self[key] = v
+
+    def _find(self, key):
+        for i, y in enumerate(self._ks):
+            if key is y or key == y:
+                return i
+        return -1
+
+    def __setitem__(self, key, v):
+        i = self._find(key)
+        if i < 0:
+            self._ks.append(key)
+            self._vs.append(v)
+        else:
+            self._vs[i] = v
+
+    def __getitem__(self, key):
+        i = self._find(key)
+        if i < 0:
+            raise KeyError(key)
+        return self._vs[i]
+
+    def __contains__(self, key):
+        return self._find(key) >= 0
+
+    def get(self, key, default=None):
+        i = self._find(key)
+        return default if i < 0 else self._vs[i]
+
+    def setdefault(self, key, default=None):
+        i = self._find(key)
+        if i < 0:
+            self[key] = default
+            return default
+        return self._vs[i]
+
+    def pop(self, key, *d):
+        i = self._find(key)
+        if i < 0:
+            if d:
+                return d[0]
+            raise KeyError(key)
+        self._ks.pop(i)
+        return self._vs.pop(i)
+
+    def keys(self):
+        return list(self._ks)
+
+    def values(self):
+        return list(self._vs)
+
+    def items(self):
+        return list(zip(self._ks, self._vs))
+
+    def __iter__(self):
+        return iter(list(self._ks))
+
+    def __len__(self):
+        return len(self._ks)
+
+    def __bool__(self):
+        return bool(self._ks)
+
+    __hash__ = None
+
+
+def install_collections(*modules):
+    """Rebind set / frozenset / dict in the given modules' namespaces (constructor calls only: literals and
+    comprehensions are compiled to the real types, whose hashing of a proxy is a TypeError -> inconclusive)."""
+    for m in modules:
+        m.set = SymSet
+        m.frozenset = SymSet
+        m.dict = SymDict
